@@ -225,6 +225,8 @@ func runCLI(args []string) int {
 			fmt.Println(n)
 		}
 		return 0
+	case "ulemmas":
+		return runULemmas()
 	case "verify":
 		E, err := loadEngine(root)
 		if err != nil {
